@@ -2876,7 +2876,9 @@ static Node *new_sub(Node *lhs, Node *rhs, Token *tok) {
     rhs = new_binary(ND_MUL, rhs, new_long(lhs->ty->base->size, tok), tok);
     add_type(rhs);
     Node *node = new_binary(ND_SUB, lhs, rhs, tok);
-    node->ty = lhs->ty;
+
+    // An array operand has decayed to a pointer to its first element.
+    node->ty = (lhs->ty->kind == TY_ARRAY) ? pointer_to(lhs->ty->base) : lhs->ty;
     return node;
   }
 
